@@ -285,6 +285,11 @@ func loose(a, b reflect.Value) bool {
 		return true
 	case reflect.Struct:
 		for i := 0; i < a.NumField(); i++ {
+			if a.Type().Field(i).Name == "multibaseEncoding" {
+				// how the key text was spelled, not what the method is: the key bytes are compared
+				continue
+			}
+
 			if !loose(a.Field(i), b.Field(i)) {
 				return false
 			}
@@ -652,6 +657,15 @@ func runCase(kind string, c caseDesc, raw []byte) {
 		}
 
 		runEnclosing(kind, e)
+	case "jwk":
+		d, err := parseJ(c.Doc)
+		if err != nil {
+			panic(err)
+		}
+
+		runJWK(kind, d, c.Note)
+	case "didbuilt":
+		runConstructed(kind, c.Note, c.Key)
 	case "fp":
 		runFP(kind, c.Code, c.Key, c.Note)
 	case "didkey":
@@ -725,7 +739,7 @@ func main() {
 		scale = 8
 	}
 
-	for i := 0; i < 900*scale; i++ {
+	for i := 0; i < 800*scale; i++ {
 		d, _ := randVC(rng.Fork(uint64(i)))
 		runVC("random-vc", d, false, "")
 	}
@@ -752,6 +766,8 @@ func main() {
 		runEnclosing("random-vp-enclosing", randEnclosing(rng.Fork(uint64(700000+i))))
 	}
 
+	genJWKs(rng.Fork(800000), scale)
+	genConstructed(rng.Fork(900000))
 	genFP(rng.Fork(500000), scale)
 	genDIDKeys(rng.Fork(600000), scale)
 }
